@@ -367,7 +367,11 @@ def run(tier):
     # the character-level front end (regular expressions regenerated from the lexer object, hand-modelled rule functions, token filter
     # with its feedback, LALR driver on the regenerated tables) against the real lexer / parser on TEXT
     import front
-    ntexts, fdis = front.run(chk, rng, tier, want=('filtered', 'parse'))
+    ntexts, fdis, escapes = front.run(chk, rng, tier, want=('filtered', 'parse'))
+    for e_ in escapes[:3]:
+        # the property itself: whatever the text, the library call ends in a result or in CompilationError / SyntaxError
+        chk.violation({'kind': 'escaped-exception', 'class': 'damaged-text', 'source': e_['source'], 'expected': 'a result, CompilationError or SyntaxError',
+                       'actual': e_['exception'], 'text_name': e_['name']})
     chk.cov['front_end_texts'] = ntexts
     disagreements.extend(fdis)
     C.tie_verdict(chk, build, missing, disagreements, 'Lessm.LR.recognise on the regenerated tables vs ply.yacc driven by LessParser',
